@@ -115,6 +115,7 @@ type Code struct {
 	FindOptimizations *FindOptimizations // analyzed candidate search strategy
 	QuickCodes        []int              // bool-only code with unobservable captures removed
 	CaptureSlotInUse  []bool             // capture slots observable by the pattern itself during quick matches
+	UsesStartAnchor   bool               // true if the program contains \G, whose meaning depends on where the search started
 }
 
 // captureSlotsInUse returns the capture slots whose values can affect matching.
@@ -169,6 +170,17 @@ func (c *Code) PrepareCharSetASCIIBitmaps() {
 			c.FindOptimizations.LiteralAfterLoop.LoopNode.Set.prepareASCIIBitmap()
 		}
 	}
+}
+
+func usesStartAnchor(codes []int) bool {
+	for pos := 0; pos < len(codes); {
+		op := InstOp(codes[pos]) & Mask
+		if op == Start {
+			return true
+		}
+		pos += opcodeSize(op)
+	}
+	return false
 }
 
 func opcodeBacktracks(op InstOp) bool {
